@@ -5872,6 +5872,51 @@ func ruleAddExpiresStale(w *World, r *Report) {
 		}
 	}
 	r.ok("ADD-EXPIRES-STALE", key, w.PosOf(hooks[0]), "an expired predecessor is purged before anything is indexed or any hook runs")
+	// sibling clause: LinearState.Add has no index to protect, but the same obligation towards the dependents: a fact
+	// that is written over a predecessor which expired unnoticed does not inherit what depended on the predecessor
+	// (a `disabled` flag, say).  Every path from the entry to the storage write passes a call that reaches
+	// LinearState.expire.
+	lin := w.Method("core", "LinearState", "Add")
+	lexp := w.Method("core", "LinearState", "expire")
+	lkey := "fn=" + fname(lin)
+	reachesExpire := map[*ssa.Function]bool{lexp: true}
+	for changed := true; changed; {
+		changed = false
+		for _, m := range w.MethodsOf(w.Named("core", "LinearState")) {
+			if reachesExpire[m] || m == lin {
+				continue
+			}
+			allInstrs(m, func(in ssa.Instruction) {
+				if c := callOf(in); c != nil && c.StaticCallee() != nil && reachesExpire[c.StaticCallee()] && !reachesExpire[m] {
+					reachesExpire[m] = true
+					changed = true
+				}
+			})
+		}
+	}
+	isLPurge := func(in ssa.Instruction) bool {
+		c := callOf(in)
+		return c != nil && c.StaticCallee() != nil && reachesExpire[c.StaticCallee()]
+	}
+	var writes []ssa.Instruction
+	allInstrs(lin, func(in ssa.Instruction) {
+		if c := callOf(in); c != nil {
+			if _, ok := isStorageCall(w, c); ok && calleeObj(c).Name() == "Add" {
+				writes = append(writes, in)
+			}
+		}
+	})
+	if len(writes) == 0 {
+		r.exempt("ADD-EXPIRES-STALE", lkey, w.Pos(lin.Pos()), "LinearState.Add does not call Storage.Add: shape not recognised, not decided")
+		return
+	}
+	for _, wr := range writes {
+		if hit, path := reach(lin, nil, func(x ssa.Instruction) bool { return x == wr }, isLPurge, nil); hit != nil {
+			r.violation("ADD-EXPIRES-STALE", lkey, w.PosOf(wr), "LinearState.Add writes over a predecessor that may have expired unnoticed without purging it first: the predecessor's dependents (its `disabled` flag, facts that name it in deleteWith) become the new fact's", blockPathString(w, path)...)
+			return
+		}
+	}
+	r.ok("ADD-EXPIRES-STALE", lkey, w.PosOf(writes[0]), "an expired predecessor is purged, with its dependents, before the new fact is written")
 }
 
 // TIMEIDX-ORDER (C16): the old index entry goes before the new one comes.
